@@ -89,10 +89,86 @@ fn id(i: usize) -> String {
     format!("verif/n{i}")
 }
 
+fn package_toml_text(i: usize, deps: &[usize], dangling: Option<usize>) -> String {
+    let mut p = String::from("[buildpack]\nuri = \".\"\n");
+    // non-libcnb dependencies first and between the libcnb ones: they never become edges
+    // and must not hide the libcnb: entries that follow them
+    p.push_str("\n[[dependencies]]\nuri = \"docker://docker.io/first/dep\"\n");
+    for (k, j) in deps.iter().enumerate() {
+        if k == 1 {
+            p.push_str("\n[[dependencies]]\nuri = \"../some/relative/path\"\n");
+        }
+        p.push_str(&format!("\n[[dependencies]]\nuri = \"libcnb:{}\"\n", id(*j)));
+    }
+    if dangling == Some(i) {
+        // unknown in three ways: a well-formed id nobody has, a string that is not a valid
+        // buildpack id, a reserved id
+        let missing = ["verif/missing", "demo/my_buildpack", "app"][i % 3];
+        p.push_str(&format!("\n[[dependencies]]\nuri = \"libcnb:{missing}\"\n"));
+    }
+    // non-libcnb dependencies never become edges
+    p.push_str("\n[[dependencies]]\nuri = \"docker://docker.io/x/y\"\n");
+    p
+}
+
+fn node_dir(root: &Path, i: usize) -> std::path::PathBuf {
+    root.join(format!("dir{}", (i * 7) % 10)).join(format!("bp{i}"))
+}
+
+/// Rescans of ONE directory in ONE process: workspace A is written and scanned, then only the
+/// package.toml files are rewritten to say B (buildpack.toml files stay untouched, byte for byte
+/// and in their timestamps) and the directory is scanned again, then back to A. Every scan must
+/// describe what is on disk at that time: the edge set is compared with the lists just written
+/// (and a dangling reference introduced by the rewrite must be an error).
+fn check_rescan(a: &[Vec<usize>], b: &[Vec<usize>]) -> Vec<Viol> {
+    let n = a.len();
+    let sc = Scratch::new("c13r");
+    let ws_root = sc.path.join("ws");
+    std::fs::create_dir_all(&ws_root).unwrap();
+    write_workspace(&ws_root, a, None);
+    let mut viols = Vec::new();
+    let replay = json!({"rescan": [a, b]});
+    let rewrite = |lists: &[Vec<usize>], dangling: Option<usize>| {
+        for i in 0..n {
+            let p = node_dir(&ws_root, i).join("package.toml");
+            if !lists[i].is_empty() || dangling == Some(i) || p.exists() {
+                std::fs::write(&p, package_toml_text(i, &lists[i], dangling)).unwrap();
+            }
+        }
+    };
+    let edges_of = |lists: &[Vec<usize>]| -> BTreeSet<(String, String)> { lists.iter().enumerate().flat_map(|(i, l)| l.iter().map(move |j| (id(i), id(*j)))).collect() };
+    let mut step = 0;
+    for lists in [a, b, a] {
+        if step > 0 {
+            rewrite(lists, None);
+        }
+        step += 1;
+        match build_libcnb_buildpacks_dependency_graph(&ws_root) {
+            Err(e) => viols.push(("rescan:graph-construction-failed".into(), format!("scan {step} of one directory ({a:?} -> {b:?} -> back): {e}"), replay.clone())),
+            Ok(g) => {
+                let got: BTreeSet<(String, String)> = g.edge_indices().map(|e| g.edge_endpoints(e).unwrap()).map(|(x, y)| (g[x].buildpack_id.to_string(), g[y].buildpack_id.to_string())).collect();
+                let want = edges_of(lists);
+                if got != want || g.node_count() != n {
+                    viols.push(("rescan:stale-or-wrong-edges".into(), format!("scan {step} of one directory ({a:?} -> {b:?} -> back): the files say {want:?}, the graph has {got:?} ({} nodes)", g.node_count()), replay.clone()));
+                }
+            }
+        }
+    }
+    // a rewrite that introduces a dangling reference at each node in turn
+    for at in 0..n {
+        rewrite(a, Some(at));
+        if let Ok(g) = build_libcnb_buildpacks_dependency_graph(&ws_root) {
+            viols.push(("rescan:dangling-dependency-accepted".into(), format!("rescan of one directory after node {at} of {a:?} gained a libcnb: dependency on an unknown id: graph with {} nodes / {} edges", g.node_count(), g.edge_count()), replay.clone()));
+        }
+        rewrite(a, None);
+    }
+    viols
+}
+
 /// `dep_lists[i]` = ordered dependency list of node i; `dangling` = (node, id) extra dependency
 fn write_workspace(root: &Path, dep_lists: &[Vec<usize>], dangling: Option<usize>) {
     for (i, deps) in dep_lists.iter().enumerate() {
-        let d = root.join(format!("dir{}", (i * 7) % 10)).join(format!("bp{i}"));
+        let d = node_dir(root, i);
         if i % 4 == 1 {
             // node 1 lives outside the workspace directory and is linked into it
             let real = root.parent().unwrap().join("ext").join(format!("bp{i}"));
@@ -121,24 +197,7 @@ fn write_workspace(root: &Path, dep_lists: &[Vec<usize>], dangling: Option<usize
             }
             std::fs::write(d.join("buildpack.toml"), t).unwrap();
             }
-            let mut p = String::from("[buildpack]\nuri = \".\"\n");
-            // non-libcnb dependencies first and between the libcnb ones: they never become edges
-            // and must not hide the libcnb: entries that follow them
-            p.push_str("\n[[dependencies]]\nuri = \"docker://docker.io/first/dep\"\n");
-            for (k, j) in deps.iter().enumerate() {
-                if k == 1 {
-                    p.push_str("\n[[dependencies]]\nuri = \"../some/relative/path\"\n");
-                }
-                p.push_str(&format!("\n[[dependencies]]\nuri = \"libcnb:{}\"\n", id(*j)));
-            }
-            if dangling == Some(i) {
-                // unknown in three ways: a well-formed id nobody has, a string that is not a valid
-                // buildpack id, a reserved id
-                let missing = ["verif/missing", "demo/my_buildpack", "app"][i % 3];
-                p.push_str(&format!("\n[[dependencies]]\nuri = \"libcnb:{missing}\"\n"));
-            }
-            // non-libcnb dependencies never become edges
-            p.push_str("\n[[dependencies]]\nuri = \"docker://docker.io/x/y\"\n");
+            let p = package_toml_text(i, deps, dangling);
             std::fs::write(d.join("package.toml"), p).unwrap();
         } else {
             std::fs::write(d.join("buildpack.toml"), format!("api = \"0.10\"\n\n[buildpack]\nid = \"{}\"\nversion = \"0.0.1\"\n\n[[targets]]\nos = \"linux\"\n", id(i))).unwrap();
@@ -291,6 +350,15 @@ pub fn run(args: &Args) {
         let doc: serde_json::Value = serde_json::from_str(&std::fs::read_to_string(path).expect("replay file")).expect("json");
         let dep_lists: Vec<Vec<usize>> = serde_json::from_value(doc["replay"]["dep_lists"].clone()).unwrap();
         let deps: Dag = dep_lists.iter().map(|l| l.iter().fold(0u8, |a, j| a | (1 << j))).collect();
+        if let Some(pair) = doc["replay"]["rescan"].as_array() {
+            let a: Vec<Vec<usize>> = serde_json::from_value(pair[0].clone()).unwrap();
+            let b: Vec<Vec<usize>> = serde_json::from_value(pair[1].clone()).unwrap();
+            for (sig, what, r) in check_rescan(&a, &b) {
+                println!("DIFFERENCE: {what}");
+                rep.violation(&sig, what, r);
+            }
+            rep.finish();
+        }
         let v = if let Some(at) = doc["replay"]["dangling"].as_u64() { check_dangling(&dep_lists, at as usize).into_iter().collect() } else { check_dag(&deps, &dep_lists).1 };
         for (sig, what, r) in v {
             println!("DIFFERENCE: {what}");
@@ -338,15 +406,30 @@ pub fn run(args: &Args) {
     for v in ures.into_iter().flatten() {
         rep.violation(&v.0, v.1, v.2);
     }
+    // rescans of one directory in one process: every ordered pair of DAGs on the same <= 3 nodes
+    let mut rj = Vec::new();
+    for n in 1..=3 {
+        let ds = all_dags(n);
+        for x in &ds {
+            for y in &ds {
+                rj.push((lists_for(x, false).remove(0), lists_for(y, false).remove(0)));
+            }
+        }
+    }
+    let rres: Vec<_> = rj.par_iter().map(|(a, b)| check_rescan(a, b)).collect();
+    for v in rres.into_iter().flatten() {
+        rep.violation(&v.0, v.1, v.2);
+    }
+    rep.cov("rescan_pairs", rj.len() as u64);
     let nontrivial = jobs.iter().filter(|(d, _)| d.iter().any(|x| *x != 0)).count() as u64;
-    rep.cov("evaluations", evals + dj.len() as u64);
+    rep.cov("evaluations", evals + dj.len() as u64 + 3 * rj.len() as u64);
     rep.cov("dags", n_dags);
     rep.cov("workspaces_written", (jobs.len() + dj.len()) as u64);
     rep.cov("orderings_checked", evals);
     rep.cov("dangling_cases", dj.len() as u64);
     rep.cov("distinct_nontrivial", nontrivial);
     rep.cov("distinct_outcomes", json!(shapes));
-    rep.cov("rule", "every labelled DAG on <= n nodes (n<=4: every permutation of every dependency list; n=5: ascending and descending), written as composite / libcnb.rs buildpack directories and loaded by the real build_libcnb_buildpacks_dependency_graph; every ordered non-empty root selection through the real get_dependencies; plus every DAG on <= 4 nodes with one dangling libcnb: dependency at each node (a well-formed unknown id, an invalid id, or a reserved id, by node index), and every DAG on <= 3 nodes with one package.toml that is not valid UTF-8 (an error, not a leaf); node 1 is always a symlink to a directory outside the workspace root. non-trivial = workspaces with at least one edge");
+    rep.cov("rule", "every labelled DAG on <= n nodes (n<=4: every permutation of every dependency list; n=5: ascending and descending), written as composite / libcnb.rs buildpack directories and loaded by the real build_libcnb_buildpacks_dependency_graph; every ordered non-empty root selection through the real get_dependencies; plus every DAG on <= 4 nodes with one dangling libcnb: dependency at each node (a well-formed unknown id, an invalid id, or a reserved id, by node index), and every DAG on <= 3 nodes with one package.toml that is not valid UTF-8 (an error, not a leaf); node 1 is always a symlink to a directory outside the workspace root; rescans: for every ordered pair (A, B) of DAGs on the same <= 3 nodes one directory is scanned as A, its package.toml files rewritten to B (buildpack.toml untouched) and scanned again in the same process, then back to A, then with a dangling reference added at each node: every scan must give exactly the edges on disk. non-trivial = workspaces with at least one edge");
     rep.cov("bound", json!({"max_nodes": max_n}));
     rep.cov("exhaustive", true);
     rep.sample(json!({"dep_lists": jobs[jobs.len() / 2].1, "roots": "every ordered non-empty selection"}));
